@@ -223,6 +223,9 @@ Fixpoint wt_stmt (s : stmt) : bool :=
              match l with [] => true | (cs, b) :: t => forallb (wt_case (is_str_q q)) cs && wt_block b && go t end) cases &&
           match els with Some b => wt_block b | None => true end
       end
+  | SData _ items => forallb (fun e => match etype e with Some _ => true | None => false end) items
+  (* READ converts external data: outside the soundness statement (it may raise Type mismatch) *)
+  | SRead _ _ => false
   end.
 
 Definition wt_program (p : program) : bool := forallb wt_stmt p.
